@@ -25,6 +25,9 @@ pub struct Case {
     /// all values are multiplied by 10^scale_exp
     #[serde(default)]
     pub scale_exp: i8,
+    /// all weights are multiplied by 10^weight_exp (the shape of a digest does not depend on the unit of its weights)
+    #[serde(default)]
+    pub weight_exp: i16,
 }
 
 /// 10^e for |e| <= 100; beyond that the exponent is stretched so that +-127 reaches 10^+-289 (values next to the
@@ -87,7 +90,14 @@ impl Check for C15 {
     }
     fn eval(&self, c: &Case) -> Verdict {
         let unit = unit_of(c.scale_exp);
-        let data: Vec<(f64, f64)> = materialise(&c.data).into_iter().map(|(x, w)| (x * unit, w)).filter(|&(x, w)| x.is_finite() && w.is_finite() && w >= 0.0 && (x * w).is_finite() && (w == 0.0 || (x == 0.0 || (x * w).abs() >= 1e-290))).collect();
+        let wunit = 10f64.powi(c.weight_exp as i32);
+        let data: Vec<(f64, f64)> = materialise(&c.data).into_iter().map(|(x, w)| (x * unit, w * wunit)).filter(|&(x, w)| x.is_finite() && w.is_finite() && w >= 0.0 && (x * w).is_finite() && (w == 0.0 || (x == 0.0 || (x * w).abs() >= 1e-290))).collect();
+        // domain: the weighted sum and the total weight of the data are representable (a digest stores sums)
+        let abs_sum: f64 = data.iter().map(|&(x, w)| (x * w).abs()).sum();
+        let wsum: f64 = data.iter().map(|&(_, w)| w).sum();
+        if !(abs_sum < 4e307) || !(wsum < f64::MAX) {
+            return Verdict::Pass(Info::new(false, hash_json(c)).class("skipped_sum_not_representable"));
+        }
         let d = match catch(|| build(c.scale, c.delta, c.backlog, &data)) {
             Ok(d) => d,
             Err(p) => return fail(panic_sig(&p), format!("insert panicked: {}", p)),
@@ -230,6 +240,7 @@ impl Check for C15 {
             .class_if(last_below_max, "last_centroid_below_max")
             .class_if(wmin != 1.0 || total != nf, "weighted")
             .class_if(c.scale_exp != 0, "rescaled_values")
+            .class_if(c.weight_exp != 0, "rescaled_weights")
             .class_if(matches!(c.data, Data::Ties { .. }), "heavy_ties");
         info.inner_evals = (qs.len() + xs.len()) as u64;
         Verdict::Pass(info)
@@ -267,8 +278,10 @@ fn strategy(tier: Tier) -> BoxedStrategy<Case> {
     // rarely a delta far larger than n (nothing is ever fused); n is then capped, since every insert
     // with a small backlog re-sorts all centroids
     let delta = prop_oneof![24 => delta_strategy(), 1 => prop_oneof![Just(1e4f64), Just(1e5)]];
-    (scale(), delta, backlog_strategy(), data, prop::collection::vec(0.0f64..=1.0, 0..6), prop::collection::vec(-0.1f64..1.1, 0..6), scale_exp)
-        .prop_map(|(scale, delta, backlog, data, qs, xs_rel, scale_exp)| {
+    // weight units: mostly 1; sometimes 10^+-30; rarely such that the total weight comes close to f64::MAX or stays tiny
+    let weight_exp = prop_oneof![20 => Just(0i16), 3 => -30i16..=30, 1 => prop_oneof![Just(290i16), Just(295), Just(300), Just(302), Just(304), Just(-250), Just(-280)]];
+    (scale(), delta, backlog_strategy(), data, prop::collection::vec(0.0f64..=1.0, 0..6), prop::collection::vec(-0.1f64..1.1, 0..6), scale_exp, weight_exp)
+        .prop_map(|(scale, delta, backlog, data, qs, xs_rel, scale_exp, weight_exp)| {
             let data = if delta > 1000.0 {
                 match data {
                     Data::Ties { n, levels, lo, span, seed, weighted } => Data::Ties { n: n.min(1500), levels, lo, span, seed, weighted },
@@ -278,7 +291,7 @@ fn strategy(tier: Tier) -> BoxedStrategy<Case> {
             } else {
                 data
             };
-            Case { scale, delta, backlog, data, qs, xs_rel, scale_exp }
+            Case { scale, delta, backlog, data, qs, xs_rel, scale_exp, weight_exp }
         })
         .boxed()
 }
@@ -288,7 +301,7 @@ pub fn checks() -> Vec<Box<dyn DynCheck>> {
 }
 
 pub fn run(ctx: &Ctx) {
-    ctx.set_rule("generated: scale in K0..K3, delta in (1, 1000] (rarely 1e4, 1e5), backlog 0..1000 (rarely 2^62, usize::MAX - 1, usize::MAX: nothing merges before a read), n in 1..=2000 (50000 thorough), data = explicit (value, weight) lists / heavy ties over few levels / uniform, ranges 1e-3..1e12 (a third of the cases multiplied by 10^e, e in -30..=30; 4 % by 10^+-100 .. 10^+-289), unit weights or weights over 1e-6..1e6; q on a 101-point grid + generated + neighbours of 0 and 1; x on a grid over [min-1, max+1] + data points + {min, max, +-inf}. Oracle: quantile non-decreasing, within [min,max], = min at 0, = max at 1; cdf non-decreasing, in [0,1], 0 below min, 1 from max upward; inverse consistency both ways (cdf(x+tol) >= q for x = quantile(q); quantile(cdf(x-tol)) <= x+tol); repeated reads bit-identical; empty digest NaN / 0; no panic (debug assertions on). tol = 16 ulps of the data range x total/smallest weight. Non-trivial: n_centroids >= 2, some centroid has weight > 1 (fusion happened) and the last centroid's mean is below max. Distinct = hash of the case.");
+    ctx.set_rule("generated: scale in K0..K3, delta in (1, 1000] (rarely 1e4, 1e5), backlog 0..1000 (rarely 2^62, usize::MAX - 1, usize::MAX: nothing merges before a read), n in 1..=2000 (50000 thorough), data = explicit (value, weight) lists / heavy ties over few levels / uniform, ranges 1e-3..1e12 (a third of the cases multiplied by 10^e, e in -30..=30; 4 % by 10^+-100 .. 10^+-289), unit weights or weights over 1e-6..1e6 (in a sixth of the cases times 10^e, e in -30..=30, rarely e in {-280, -250, 290, 295, 300, 302, 304}; cases whose sum of |x*w| or total weight is not representable are skipped); q on a 101-point grid + generated + neighbours of 0 and 1; x on a grid over [min-1, max+1] + data points + {min, max, +-inf}. Oracle: quantile non-decreasing, within [min,max], = min at 0, = max at 1; cdf non-decreasing, in [0,1], 0 below min, 1 from max upward; inverse consistency both ways (cdf(x+tol) >= q for x = quantile(q); quantile(cdf(x-tol)) <= x+tol); repeated reads bit-identical; empty digest NaN / 0; no panic (debug assertions on). tol = 16 ulps of the data range x total/smallest weight. Non-trivial: n_centroids >= 2, some centroid has weight > 1 (fusion happened) and the last centroid's mean is below max. Distinct = hash of the case.");
     ctx.assume("values with |x*w| finite and normal, as the constructor's documented domain (finite x, finite w >= 0)");
     ctx.run_regressions(&[&C15]);
     let t = ctx.tier;
